@@ -5,14 +5,17 @@ import e2misc
 
 def run(tier, seed, ev, jobs):
     rc = e2misc.run_hdr("C10", ev)
-    ev.outside.append("block extraction by brace matching (SwiftParser::extract_block) and to_mt_message assembly are not covered; "
-                      "UserHeader/Trailer::parse on arbitrary text is not covered")
+    rc = e1.combine(rc, e2misc.run_block("C10", ev))
+    ev.outside.append("to_mt_message assembly is not covered; "
+                      "UserHeader/Trailer::parse on texts holding several tags at once or text between the tags is not covered")
     return e1.combine(rc, e1.run_e1("C10", tier, seed, ev, jobs))
 
 
 def replay(path):
     import json
-    r = e1.replay_file(path)
+    r = e2misc.replay_file(path)
+    if r is None:
+        r = e1.replay_file(path)
     if r is None:
         print(open(path).read())
         return 1
